@@ -55,6 +55,8 @@ class AstToSqlVisitor(visitor.NodeVisitor):
                 return _PREC_ADDITIVE
             return _PREC_MULTIPLICATIVE
         if isinstance(node, ast.Call):
+            if node.func.namespace:
+                return _PREC_ATOM
             return _FUNCTION_PRECEDENCE.get(node.func.name.lower(), _PREC_ATOM)
         return _PREC_ATOM
 
@@ -288,12 +290,16 @@ class AstToSqlVisitor(visitor.NodeVisitor):
 
     def visit_Call(self, node: ast.Call) -> str:
         ":meta private:"
+        # A namespaced function (`geo.length`, `my.func`) is a different function
+        # than the built-in with the same bare name:
+        func_name = node.func.full_name().replace(".", "__")
+
         try:
             # Grammar has already validated that the function is valid OData,
             # but that doesn't guarantee we can represent it in SQL:
-            sql_gen = getattr(self, "sqlfunc_" + node.func.name.lower())
+            sql_gen = getattr(self, "sqlfunc_" + func_name.lower())
         except AttributeError:
-            raise exceptions.UnsupportedFunctionException(node.func.name)
+            raise exceptions.UnsupportedFunctionException(func_name)
 
         return sql_gen(*node.args)
 
